@@ -504,10 +504,53 @@ def t_compr2loop(tree):
     return T().visit(tree)
 
 
+def t_attrcache(tree):
+    """cache a repeated attribute lookup in a local: `<param>.<attr>` read at least twice, first in a simple top-level statement of the function;
+    the attribute is never stored to in the function and the parameter never re-bound -> `_c_<attr> = <param>.<attr>` before that statement"""
+    for fn in _functions(tree):
+        if any("njit" in ast.unparse(d) or "vectorize" in ast.unparse(d) or "property" in ast.unparse(d) or "setter" in ast.unparse(d) for d in fn.decorator_list):
+            continue
+        params = _params(fn)
+        stored = {n.id for n in ast.walk(fn) if isinstance(n, ast.Name) and isinstance(n.ctx, (ast.Store, ast.Del))}
+        attr_stored = {n.attr for n in ast.walk(fn) if isinstance(n, ast.Attribute) and isinstance(n.ctx, (ast.Store, ast.Del))}
+        if any(isinstance(n, ast.Call) and (getattr(n.func, "id", None) or getattr(n.func, "attr", "")) in ("mirror_tensor", "setattr") for n in ast.walk(fn)):
+            continue
+        if any(isinstance(n, (ast.Lambda, ast.FunctionDef)) and n is not fn for n in ast.walk(fn)):
+            continue
+        counts = {}
+        for n in ast.walk(fn):
+            if isinstance(n, ast.Attribute) and isinstance(n.ctx, ast.Load) and isinstance(n.value, ast.Name) and n.value.id in params \
+                    and n.value.id not in stored and n.attr not in attr_stored and not n.attr.startswith("__"):
+                counts[(n.value.id, n.attr)] = counts.get((n.value.id, n.attr), 0) + 1
+        for (root, attr), c in sorted(counts.items()):
+            if c < 2:
+                continue
+            first = None
+            for i, st in enumerate(fn.body):
+                if any(isinstance(n, ast.Attribute) and isinstance(n.value, ast.Name) and n.value.id == root and n.attr == attr for n in ast.walk(st)):
+                    first = i
+                    break
+            if first is None or not isinstance(fn.body[first], (ast.Assign, ast.Expr, ast.Return, ast.AugAssign)):
+                continue
+            nm = f"_c_{root}_{attr}".replace("__", "_")
+
+            class R(ast.NodeTransformer):
+                def visit_Attribute(self, node):
+                    self.generic_visit(node)
+                    if isinstance(node.ctx, ast.Load) and isinstance(node.value, ast.Name) and node.value.id == root and node.attr == attr:
+                        return ast.copy_location(ast.Name(id=nm, ctx=ast.Load()), node)
+                    return node
+            fn.body[first:] = [R().visit(b) for b in fn.body[first:]]
+            fn.body.insert(first, ast.Assign(targets=[ast.Name(id=nm, ctx=ast.Store())],
+                                             value=ast.Attribute(value=ast.Name(id=root, ctx=ast.Load()), attr=attr, ctx=ast.Load()), lineno=fn.lineno))
+            break  # one cache per function keeps the transformation obviously safe
+    return tree
+
+
 TRANSFORMS = {"unparse": lambda t: t, "locals": t_locals, "negif": t_negif, "retvar": t_retvar, "isnot": t_isnot, "kwswap": t_kwswap,
               "nop": t_nop, "annot": t_annot, "docstrip": t_docstrip, "splitand": t_splitand, "ternary2if": t_ternary2if, "explain": t_explain,
               "inlinetmp": t_inlinetmp, "methodorder": t_methodorder, "assert2if": t_assert2if, "msgtext": t_msgtext, "dict2lit": t_dict2lit,
-              "lit2dict": t_lit2dict, "compr2loop": t_compr2loop}
+              "lit2dict": t_lit2dict, "compr2loop": t_compr2loop, "attrcache": t_attrcache}
 
 
 def overlay_for(name, only=None):
